@@ -65,7 +65,7 @@ Inductive item := IFrom (t : N) | ICrit (k : crit) | ILimit (v : val).
 Inductive res (A : Type) : Type :=
 | Ok (a : A)
 | Rejected        (* InvalidRequestError: the documented refusal of a closure variable *)
-| TypeErr         (* TypeError out of the analysis run *)
+| TypeErr         (* TypeError out of the analysis run (not produced any more: the list-index defect is repaired, 3d569da) *)
 | DomErr.         (* outside the modelled fragment / the direct construction itself raises ArgumentError *)
 Arguments Ok {A} a.
 Arguments Rejected {A}.
@@ -152,6 +152,7 @@ Section Sem.
     end.
 
   (* does the analysis run coerce the wrapper of cell i into a BindParameter (PyWrapper._has_param) *)
+  (* note: cell_i[k] coerces the SUB-wrapper of the item, not the wrapper of cell_i itself *)
   Definition slots (u : use) (i : nat) : bool :=
     match u with
     | UCmp _ _ _ j | UIn _ _ j | ULimit j => Nat.eqb i j
@@ -164,12 +165,18 @@ Section Sem.
   | Bound        (* wrapped, made a parameter: value re-extracted on every call, not part of the key *)
   | KeyElem      (* not a literal: its cache key (here: the value itself) is part of the key *)
   | KeyCode      (* wrapped, never a parameter, a function: only its __code__ is part of the key *)
-  | Reject.      (* InvalidRequestError *)
+  | KeySeqBad    (* wrapped, never a parameter, a list / str: a Sequence getter is registered (the analysis succeeds and
+                    is stored) that raises InvalidRequestError whenever the key is computed: elements have no cache key *)
+  | Reject.      (* InvalidRequestError during the analysis *)
 
   Definition classify (us : list use) (i : nat) (v : val) : cls :=
     if deep_is_literal v then
       if has_param us i then Bound
-      else match v with VFun _ _ => KeyCode | _ => Reject end          (* _cache_key_getter_tracked_literal *)
+      else match v with                                                (* _cache_key_getter_tracked_literal *)
+           | VFun _ _ => KeyCode
+           | VList _ | VStr _ => KeySeqBad
+           | _ => Reject
+           end
     else match v with
          | VCol _ _ | VTab _ => KeyElem                                (* HasCacheKey *)
          | VList _ => KeyElem                                          (* Sequence of HasCacheKey elements *)
@@ -191,12 +198,12 @@ Section Sem.
     existsb (fun ci => match snd ci with Reject => Bool.eqb (fst ci) (negb nonliteral) | _ => false end) a.
 
   (* AnalyzedCode.__init__: _init_closure (uncacheable non-literal cells raise first), then the instrumented
-     run (a list index creates PyWrapper(name=<int>) -> BindParameter(<int>) -> TypeError), then the tracked
-     literals that did not become parameters *)
+     run, then the tracked literals that did not become parameters.  (Before 3d569da a list index raised
+     TypeError in the run: PyWrapper(name=<int>) -> BindParameter(<int>); the item wrapper is now named
+     "<cell>_item_<k>".) *)
   Definition analyze (us : list use) (e : list val) : res (list cinfo) :=
     let a := classify_cells us 0 e in
     if rejects a true then Rejected
-    else if existsb is_index us then TypeErr
     else if rejects a false then Rejected
     else Ok a.
 
@@ -218,7 +225,8 @@ Section Sem.
   | SFix (it : item)                              (* built from the values of the creating call *)
   | SCmpSlot (t c : N) (op : cmpop) (i : nat)     (* T.c <op> :cell_i     bound parameter, filled on every call *)
   | SInSlot (t c : N) (i : nat)                   (* T.c IN :cell_i       expanding parameter *)
-  | SLimitSlot (i : nat).                         (* LIMIT :cell_i *)
+  | SLimitSlot (i : nat)                          (* LIMIT :cell_i *)
+  | SIdxSlot (t c : N) (op : cmpop) (i k : nat).  (* T.c <op> :cell_i_item_k   bind path: item k of the current cell_i *)
 
   Definition wrapped (a : list cinfo) (i : nat) : bool := fst (nth i a (false, Reject)).
 
@@ -245,7 +253,13 @@ Section Sem.
         end
     | ULimit i => if wrapped a i then Ok [SLimitSlot i] else fixed (direct_use e u)
     | UIf _ _ _ _ _ => fixed (direct_use e u)       (* PyWrapper.__bool__: the current truth value is baked in *)
-    | UIndex _ _ _ _ _ => TypeErr
+    | UIndex t c op i k =>
+        if wrapped a i then
+          match cell e i with
+          | VList l => match nth_error l k with Some _ => Ok [SIdxSlot t c op i k] | None => DomErr end  (* IndexError *)
+          | _ => DomErr
+          end
+        else fixed (direct_use e u)
     end.
 
   Fixpoint build_uses (a : list cinfo) (e : list val) (us : list use) : res (list sitem) :=
@@ -264,6 +278,7 @@ Section Sem.
     | SCmpSlot t c op i => [ICrit (CCmp t c op (cell e i))]
     | SInSlot t c i => [ICrit (CIn t c (match cell e i with VList l => l | v => [v] end))]
     | SLimitSlot i => [ILimit (cell e i)]
+    | SIdxSlot t c op i k => [ICrit (CCmp t c op (match cell e i with VList l => nth k l VNone | _ => VNone end))]
     end.
   Definition fill (e : list val) (p : list sitem) : list item := flat_map (fill_item e) p.
 End Sem.
@@ -327,6 +342,7 @@ Section Machine.
                      end
            end) with
     | Ok (a, st1) =>
+        if existsb (fun ci => match snd ci with KeySeqBad => true | _ => false end) a then (st1, Rejected) else
         let key := pkey ++ [(code, keyparts a e)] in
         match assoc_key key (cache st1) with
         | Some p => (st1, Ok (key, p))
